@@ -537,7 +537,7 @@ func runC05One(cs *vrt.Case) {
 		if strings.Contains(what, "across-65536") {
 			otk = 1 // 65600 base OTs with CO take minutes
 		}
-		o := runStream(r, src, reuseParams, gIn, eIn, yaoOpts{ot: otk, kind: 2, stallWin: 30 * time.Second, srcName: srcFile, cc: reuseCC})
+		o := runStream(r, src, reuseParams, gIn, eIn, yaoOpts{ot: otk, kind: 2, stallWin: 30 * time.Second, srcName: srcFile, cc: reuseCC, shortReads: []int{0, 0, 0, 255, 0, 16, 0, 1}[cs.Idx%8]})
 		if reuseCC != nil {
 			cs.Count("streams_by_a_compiler_instance_with_history", 1)
 		}
